@@ -24,7 +24,14 @@ type lit struct {
 
 func termHas(t fw.Term, l lit) bool {
 	for _, x := range t {
-		if x.Pos == l.pos && containsAll(x.Atom, l.subs...) {
+		if x.Pos != l.pos {
+			continue
+		}
+		if containsAll(x.Atom, l.subs...) {
+			return true
+		}
+		// equality is commutative: the extractor orders the operands canonically
+		if sw := swapEq(x.Atom); sw != "" && containsAll(sw, l.subs...) {
 			return true
 		}
 	}
@@ -48,6 +55,23 @@ func requireOnSuccessIdx(c *fw.Ctx, rule, fname string, fn *ssa.Function, idx in
 		return
 	}
 	c.SawFn(fw.FuncName(fn))
+	// checks moved into unexported helpers are looked up inside the helpers
+	t.ExpandUnknown(func(atom string) bool {
+		if !fw.AtomCallsUnexportedHelper(atom) {
+			return true
+		}
+		for _, n := range needs {
+			for _, l := range n.alts {
+				if containsAll(atom, l.subs...) {
+					return true
+				}
+				if sw := swapEq(atom); sw != "" && containsAll(sw, l.subs...) {
+					return true
+				}
+			}
+		}
+		return false
+	})
 	var succ []fw.Row
 	for _, r := range t.Rows {
 		if r.Outcome == "accept" {
